@@ -285,6 +285,12 @@ fn with_inputs(sc: &Scenario, s: &SelectObs, extra: &[usize]) -> Option<csl::Tra
             inb.add_regular_utxo(&w.utxo(*i)).ok()?;
         }
     }
+    // keys the history declared on the inputs builder itself travel with it
+    for op in sc.ops.iter().take(s.op) {
+        if let Op::InReqSigner(k) = op {
+            inb.add_required_signer(&key(*k).hash);
+        }
+    }
     let mut b = s.pre.clone();
     b.set_inputs(&inb);
     Some(b)
@@ -692,6 +698,29 @@ impl Prop for C08 {
         "one run = one seeded wallet session (pre-state inputs/outputs/mint/withdrawals/deposits in seeded order, then add_inputs_from with one of the 4 strategies, optionally retried) under one RNG schedule (8 samplers) — non-trivial = a selection returned Ok and its cover rule was evaluated against ground-truth UTxO values; distinct = distinct state signature (strategy x pre-inputs x offered x added buckets x swap/top-up/shortcut probes x identical outputs x requested assets x fault class x sampler)".into()
     }
     fn generate(&self, seed: u64, tier: Tier) -> Scenario {
+        // one run in six is a full wallet session (script inputs, mints, deposits, collateral, governance as
+        // pre-state) cut to end in a plain selection, so that the selection rules also see rich pre-states
+        if Rng::stream(seed, 11).chance(1, 6) {
+            let mut p = crate::wallet::Profile::base("c08w");
+            p.tight = 500;
+            p.assets = 600;
+            p.collateral_helper = 0;
+            p.adaptive = 0;
+            let mut sc = crate::wallet::generate(seed, tier, &p);
+            // turn combined balancing calls into a plain selection followed by the change call
+            let mut ops = vec![];
+            for op in sc.ops.drain(..) {
+                match op {
+                    Op::SelectAndChange(st, ids, ch) => {
+                        ops.push(Op::Select(st, ids));
+                        ops.push(Op::Change(ChangeSpec { script_ref: None, ..ch }));
+                    }
+                    o => ops.push(o),
+                }
+            }
+            sc.ops = ops;
+            return sc;
+        }
         generate(seed, tier)
     }
     fn execute(&self, case: &Scenario) -> Outcome {
